@@ -415,6 +415,9 @@ func runC10(c *Ctx) {
 	// Equals the parsed text in origin, destination and promotion (rule of C19, re-decided here)
 	r.Rule("R10-move", "Engine.Move plays exactly the move the text names: the pushed move is a generated move Equal to the parsed text (origin, destination, promotion piece), and success is reported iff it was pushed", 5)
 	c.guard("R10-move", func() { r.WithAlias("R19-move", "R10-move", func() { c19Move(c) }) })
+	// a valid FEN must be accepted as it stands: the decoder's consistency checks test the right squares
+	// (rules of C19, re-decided here)
+	c.guard("R10-engine", func() { r.WithAlias("R19-homes", "R10-engine", func() { c19Homes(c, "R19-homes") }) })
 }
 
 // mustStoredBefore: the keys for which a store has happened on EVERY path from the function's
